@@ -402,7 +402,7 @@ class Gen:
         if k == "vec":
             return self.wrap(self.not_bool(self.g_type(depth - 1)), "*")
         if k == "fixvec":
-            return self.wrap(self.g_type(depth - 1), "*%d" % rng.randint(1, 4))
+            return self.wrap(self.g_type(depth - 1), "*%d" % (0 if rng.random() < 0.08 else rng.randint(1, 4)))
         if k == "map":
             kt = prim(rng.choice(KEY_PRIMS))
             e = self.nameable(self.g_type(depth - 1))
@@ -419,6 +419,8 @@ class Gen:
         if k == "fixarr":
             rank = rng.randint(1, 3)
             dims = [rng.randint(1, 3) for _ in range(rank)]
+            if rng.random() < 0.08:
+                dims[rng.randrange(rank)] = 0      # a zero extent: no element, no byte in the stream
             named = rng.random() < 0.4
             txt = ", ".join(("d%d:%d" % (i, d)) if named else str(d) for i, d in enumerate(dims))
             return T("fixarr", "%s[%s]" % (par, txt), dims=dims, e=e)
